@@ -89,6 +89,11 @@ CLAIMED = {
     "C17": (E1, "exhaustive enumeration of (unit, amount) states through three serde channels on the real code with a bit-exact round-trip oracle and a collision table for injectivity",
             "All catalogue units x value and adversarial amount alphabets, both back-ends, three channels; bit-exact oracle.",
             TRUST_E1 + " serde / serde_json are trusted.", "5.17"),
+    "C18": (E1, "exhaustive enumeration of operand tuples from totality alphabets (every IEEE class / Decimal range edges) through every operation under catch_unwind; precondition evaluated in exact rationals",
+            "Every operation of the library on every unit pair with every combination of special values (f64) or range-edge "
+            "values (Decimal); a panic on a case that satisfies the statement's precondition is a violation, the number of "
+            "excluded cases is reported per precondition clause.",
+            TRUST_E1 + " The Decimal precondition is read as in DESIGN.md 5.18 (includes the own-unit product/quotient of the amounts).", "5.18"),
 }
 
 PENDING_REASON = "check not built yet in this revision of /verif (see DESIGN.md section 5 for the planned exploration)"
